@@ -214,6 +214,11 @@ class ZeroLinearOperator(LinearOperator):
         raise RuntimeError("ZeroLinearOperators are not invertible!")
 
     def logdet(self: Float[LinearOperator, "*batch M N"]) -> Float[Tensor, " *batch"]:
+        if not self.is_square:
+            raise RuntimeError(
+                "logdet only operates on (batches of) square (positive semi-definite) LinearOperators. "
+                "Got a {} of size {}.".format(self.__class__.__name__, self.size())
+            )
         return torch.full(self.batch_shape, float("-inf"), dtype=self.dtype, device=self.device)
 
     def matmul(
